@@ -294,9 +294,7 @@ Definition effective (ver : N) (cs : list call) : list (N * list N) :=
 (* Specification side                                                                         *)
 (* ------------------------------------------------------------------------------------------ *)
 Definition digits (phone : list N) : Prop := Forall (fun d => d < 10) phone.
-Definition digitsb (phone : list N) : bool := forallb (fun d => d <? 10) phone.
 Definition maxlen (ver : N) : nat := if ver =? V2019 then 20%nat else 12%nat.
-Definition valid_ver (ver : N) : bool := (ver =? V2011) || (ver =? V2013) || (ver =? V2019).
 
 (* the phone number as the header carries it and as the library renders it *)
 Definition phone_bcd (ver : N) (phone : list N) : list N :=
